@@ -170,6 +170,8 @@ impl EventLoop {
                 // nor does the retransmission order of the new session depend on what
                 // the old one had acknowledged last
                 self.state.last_puback = 0;
+                // that order is the order of the id cycle, so the cycle restarts as well
+                self.state.last_pkid = 0;
             }
             self.network = Some(network);
 
